@@ -100,6 +100,15 @@ def main(argv):
             res["names"] = names
             if full:
                 res["json_text"] = text
+            # the single-element entry point (public, "called by parse"): its
+            # naming must not depend on what this process parsed before either
+            from statham.schema.parser import parse_element
+            from statham.serializers import serialize_python
+
+            schema2 = materialize(
+                RefDict.from_uri(uri), context_labeller=title_labeller()
+            )
+            res["pe"] = _sha(serialize_python(parse_element(schema2)))
         except RecursionError:
             res["json"] = "EXC:RecursionError"
         except Exception as exc:  # pylint: disable=broad-except
